@@ -69,10 +69,10 @@ def sharedOrigin (is : Infos) (i : Info) : Bool :=
   (List.range hs.length).any fun a => (List.range hs.length).any fun b =>
     a < b && intersects (hs.getD a []) (hs.getD b [])
 
-/-- A second or later upstream state is connected through two or more fields (D34). -/
+/-- A second or later upstream state is connected through two or more fields (D38). -/
 def laterMulti (i : Info) : Bool := i.ups.tail.any fun (_, fl) => fl.length ≥ 2
 
-/-- The node has an own splitter and its combiner removes every inherited axis (D33). -/
+/-- The node has an own splitter and its combiner removes every inherited axis (D37). -/
 def combAllPrev (i : Info) : Bool :=
   !i.own.isEmpty && !i.upAxes.isEmpty && i.upAxes.all i.comb.contains
 
@@ -103,14 +103,19 @@ def dropsRoot (is : Infos) (i : Info) : Bool :=
 def mergesInto (is : Infos) (i : Info) : Bool :=
   i.ups.any fun (v, _) => triggers is i v && ((is.get v).map (fun iv => iv.own.isEmpty)).getD false
 
+/-- The node's name is a substring of the dotted name of a combiner key that belongs to another node: pydra's
+    `current_combiner` (`self.name in comb`) then treats an inherited axis as the node's own (D39). -/
+def nameClash (nd : Node) : Bool := !(nd.ownComb == nd.comb.filter fun c => c.1 == nd.name)
+
 structure Flags where
   shared : Bool            -- some node has two upstream states sharing an origin
   dropsRoot : Bool         -- … and an own-splitter descendant of a connected root is connected too   (D31 shape)
   mergesInto : Bool        -- … and a splitter-less descendant of a connected root is connected too    (triangle / D30 shape)
   sharedComb : Bool        -- shared origins and some node of the workflow has a combiner
-  laterMulti : Bool        -- D34
-  combAllPrev : Bool       -- D33
+  laterMulti : Bool        -- D38
+  combAllPrev : Bool       -- D37
   partialZipFeeds : Bool   -- D29
+  nameClash : Bool         -- D39
   deriving Repr, DecidableEq
 
 def flags (w : Wf) : Flags :=
@@ -122,7 +127,8 @@ def flags (w : Wf) : Flags :=
     sharedComb := sh && w.nodes.any fun nd => !nd.comb.isEmpty
     laterMulti := is.any laterMulti
     combAllPrev := is.any combAllPrev
-    partialZipFeeds := w.nodes.any fun nd => partialZip al nd && hasConsumer w.nodes nd.name }
+    partialZipFeeds := w.nodes.any fun nd => partialZip al nd && hasConsumer w.nodes nd.name
+    nameClash := w.nodes.any nameClash }
 
 /-- `NoSharedOrigin`: at every node the upstream states have pairwise disjoint origins. -/
 def noSharedOrigin (w : Wf) : Bool := !(flags w).shared
@@ -131,7 +137,7 @@ def noSharedOrigin (w : Wf) : Bool := !(flags w).shared
     with the nested-loop reference (a disagreement there is a VIOLATION, never a known finding). -/
 def inClass (w : Wf) : Bool :=
   let f := flags w
-  !f.shared && !f.laterMulti && !f.combAllPrev && !f.partialZipFeeds
+  !f.shared && !f.laterMulti && !f.combAllPrev && !f.partialZipFeeds && !f.nameClash
 
 /-- Structural well-formedness = the generator's domain. -/
 def wellFormed (w : Wf) : Bool :=
@@ -153,6 +159,7 @@ def toJson (w : Wf) : Json :=
   let f := flags w
   Json.mkObj [("shared", f.shared), ("dropsRoot", f.dropsRoot), ("mergesInto", f.mergesInto),
     ("sharedComb", f.sharedComb), ("laterMulti", f.laterMulti), ("combAllPrev", f.combAllPrev),
-    ("partialZipFeeds", f.partialZipFeeds), ("inClass", inClass w), ("wellFormed", wellFormed w)]
+    ("partialZipFeeds", f.partialZipFeeds), ("nameClash", f.nameClash), ("inClass", inClass w),
+    ("wellFormed", wellFormed w)]
 
 end PydraModel.WfState.Class
